@@ -147,7 +147,7 @@ def _run(plan, scratch, log, stats, violation):
     screen = gen.make_screen(plan["screen"])
     table = _plate_table(screen)
     rnd = sub_rng(plan["seed"], "batch")
-    RP.config = dict(kind="kper", k=k)
+    RP.config = dict(kind="kper", k=k, reuse=bool(plan["seed"] % 2))
     path = plan["path"]
     spath = scratch.file("screen.h5")
     screen.save_h5(spath)
